@@ -1,7 +1,10 @@
 /-
   Model of cnvlib/export.py (export_bed, export_vcf/segments2vcf, export_seg, merge_samples,
   fmt_cdt, fmt_jtv, export_nexus_basic) and skgenome/tabio/seg.py (write_seg, format_seg,
-  create_chrom_ids), as the code is.  The copy-number tables (chromosome class, reference and
+  create_chrom_ids), as the code is after the two proposed repairs U (export_bed takes the reference
+  copies from the class table, like export_vcf) and V (merge_samples keeps sample columns apart from
+  the bin columns); the pre-repair behaviour is kept as `ncopiesBedPrefix`, `mergeSamplesPrefix`,
+  `fmtJtvPrefix`.  The copy-number tables (chromosome class, reference and
   expected copies, half-even rounding) are those of Model/Call.lean.  Ratio space: a segment
   carries `t`, the exact rational of the double `2**log2`, next to `v`, the double `log2`.
   Core Lean only.
